@@ -1,9 +1,70 @@
 import Driver.Proto
+import ScrapliModel.Channel
+import ScrapliModel.Generated.Patterns
+import ScrapliModel.Generated.Consts
 namespace Driver
-open Scrapli
+open Scrapli Scrapli.Chan
 
-/-- line-protocol handler for property C01 (arguments after the leading `c01` token) -/
+def stripAnsi (b : Bytes) : Bytes := Rx.replaceAll Gen.Rx.Util.ansiPattern b []
+
+def mkCfg (depth : Nat) (exact strip : Bool) (ret : Bytes) : Cfg :=
+  { depth := depth, mult := Gen.Channel.inputSearchDepthMultiplier, exact := exact, strip := strip,
+    ret := ret,
+    promptP := fun w => Rx.isMatch Gen.Rx.Channel.promptPattern w,
+    stripP := fun b => Rx.replaceAll Gen.Rx.Channel.promptPattern b [] }
+
+def exactAtB (P : Bytes → Bool) (S : Bytes) : Bool :=
+  P S && (List.range S.length).all fun k => !P (S.take k)
+
+def wellFormedB (cfg : Cfg) (x : Exchange) : Bool :=
+  !x.echo.flatten.isEmpty && exactAtB (echoPred cfg x.cmd) x.echo.flatten &&
+  !x.resp.flatten.isEmpty && exactAtB (promptPred cfg) x.resp.flatten
+
+def parseExchanges : List String → Option (List Exchange)
+  | [] => some []
+  | c :: e :: r :: t => do
+    let cmd ← fromHex c
+    let echo ← hexList e
+    let resp ← hexList r
+    let rest ← parseExchanges t
+    pure ({ cmd := cmd, echo := echo.map (normalizeChunk stripAnsi),
+            resp := resp.map (normalizeChunk stripAnsi) } :: rest)
+  | _ => none
+
+/-- `c01 sess <depth> <exact> <strip> <ret> (<cmd> <echo-chunks> <resp-chunks>)*`
+    → `<dom> <ok> <results> <queue-empty> <writes>`;
+    `c01 window <depth> <hex>` → window; `c01 rough <input> <output>` → 0/1;
+    `c01 pout <strip> <ret> <hex>` → processOut; `c01 norm <hex>` → normalizeChunk -/
 def handleC01 : List String → String
+  | "sess" :: depth :: exact :: strip :: ret :: xs =>
+    match depth.toNat?, fromHex ret, parseExchanges xs with
+    | some d, some ret, some exs =>
+      let cfg := mkCfg d (s2b exact) (s2b strip) ret
+      let dom := exs.all (wellFormedB cfg) && exs.all fun x => !x.cmd.isEmpty
+      match sendAll cfg { q := [], writes := [] } exs with
+      | none => s!"{b2s dom} 0 . 0 ."
+      | some (rs, s) => s!"{b2s dom} 1 {showHexList rs} {b2s s.q.flatten.isEmpty} {showHexList s.writes}"
+    | _, _, _ => "bad-op"
+  | ["window", depth, h] =>
+    match depth.toNat?, fromHex h with
+    | some d, some b => toHex (window b d)
+    | _, _ => "bad-op"
+  | ["sdepth", depth, n] =>
+    match depth.toNat?, n.toNat? with
+    | some d, some n => toString (searchDepth Gen.Channel.inputSearchDepthMultiplier d n)
+    | _, _ => "bad-op"
+  | ["rough", a, b] =>
+    match fromHex a, fromHex b with
+    | some a, some b => b2s (roughlyContains a b)
+    | _, _ => "bad-op"
+  | ["pout", strip, ret, h] =>
+    match fromHex ret, fromHex h with
+    | some ret, some b => toHex (processOut (mkCfg 1000 false (s2b strip) ret) b)
+    | _, _ => "bad-op"
+  | ["norm", h] =>
+    match fromHex h with
+    | some b => toHex (normalizeChunk stripAnsi b)
+    | none => "bad-op"
   | _ => "bad-op"
 
 end Driver
